@@ -571,8 +571,6 @@ struct HyT {
     z: Vec<JFr>,
     vals: Vec<JFr>,
     proof: Vec<hyrax::HyraxProof<JubJub>>,
-    /// the values the honest evaluation commitments commit to (known to the harness, which ran the prover)
-    committed: Vec<Option<JFr>>,
 }
 
 fn tensor_le(vals: &[JFr]) -> Vec<JFr> {
@@ -629,11 +627,9 @@ fn hyrax_ref(t: &HyT, sp: &mut Sp<JFr>) -> Result<bool, String> {
         if lhs != tprime.mul(c) + pf.com_d {
             return Ok(false);
         }
-        // the evaluation commitment must open to the claimed value
-        match t.committed[i] {
-            Some(v) if v == t.vals[i] => {}
-            Some(_) => return Ok(false),
-            None => {} // com_eval was replaced: (14) decides
+        // the evaluation commitment is the (unblinded) commitment to the claimed value
+        if pf.com_eval != t.vk.com_key[0].mul(t.vals[i]).into_affine() {
+            return Ok(false);
         }
     }
     Ok(true)
@@ -657,7 +653,7 @@ fn hyrax_case(ctx: &mut Ctx, rng: &mut ChaCha20Rng) {
         Err(_) => return ctx.skipped("baseline", "honest open refused"),
     };
     let vals: Vec<JFr> = idx.iter().map(|&i| tx.polys[i].evaluate(&z)).collect();
-    let t0 = HyT { vk: tx.w.vk.clone(), comms: tx.c.comms.iter().map(|c| c.commitment().clone()).collect(), z: z.clone(), vals: vals.clone(), proof, committed: vals.iter().map(|v| Some(*v)).collect() };
+    let t0 = HyT { vk: tx.w.vk.clone(), comms: tx.c.comms.iter().map(|c| c.commitment().clone()).collect(), z: z.clone(), vals: vals.clone(), proof };
     let desc = json!({"tx": tx.json()});
     let mut faults: Vec<(String, HyT)> = vec![("honest".into(), t0.clone())];
     let dim = t0.vk.com_key.len();
@@ -671,7 +667,6 @@ fn hyrax_case(ctx: &mut Ctx, rng: &mut ChaCha20Rng) {
         faults.push((format!("value:{}", i), t));
         let mut t = t0.clone();
         t.proof[i].com_eval = rjj(rng);
-        t.committed[i] = None;
         faults.push((format!("proof-com_eval:{}", i), t));
         let mut t = t0.clone();
         t.proof[i].com_d = rjj(rng);
